@@ -33,7 +33,7 @@ MatchFrom(out, msg, i, j) ==
   ELSE LET n == RunLen(out, msg, i, j) IN
        IF n > 0 THEN MatchFrom(out, msg, i + n, j + n)
        ELSE \/ (i <= Len(out) /\ out[i] = msg[j] /\ MatchFrom(out, msg, i + 1, j + 1))
-            \/ (i > Len(out) /\ msg[j] = Blank /\ MatchFrom(out, msg, i, j + 1))     \* blanks left behind by a dropped tag
+            \/ ((i > Len(out) \/ i = 1) /\ msg[j] = Blank /\ MatchFrom(out, msg, i, j + 1))   \* blanks left at either end by a dropped tag
             \/ (TagLen(msg, j) > 0 /\ MatchFrom(out, msg, i, j + TagLen(msg, j)))
             \/ (msg[j] = "\\" /\ j < Len(msg) /\ msg[j + 1] = "<" /\ MatchFrom(out, msg, i, j + 1))
 MatchAside(out, msg) == MatchFrom(out, msg, 1, 1)
